@@ -663,12 +663,16 @@ def validate_map_inputs(
     Raises:
         MissingInputError: If a ``map_over`` name has no value to iterate over,
             or a required input of the graph is not provided.
+        GraphConfigError: If ``select`` names an output the graph does not have.
     """
     import warnings
 
     absent = [name for name in map_over if name not in values]
     if absent:
         raise MissingInputError(missing=absent, provided=list(values.keys()))
+
+    # the selection is the same for every item: an unknown name is rejected here, as run() does
+    selected = resolve_runtime_selected(select, graph)
 
     # names only: one (arbitrary) element stands for each mapped-over sequence
     item_values = {name: (None if name in map_over else value) for name, value in values.items()}
@@ -679,7 +683,7 @@ def validate_map_inputs(
                 graph,
                 item_values,
                 entrypoint=entrypoint,
-                selected=resolve_runtime_selected(select, graph),
+                selected=selected,
                 on_internal_override=on_internal_override,
             )
     except MissingInputError:
